@@ -313,6 +313,7 @@ def frontier (p : PImg) : Nat := min p.bm p.hdr.nextPage
 /-- what the page phase of a compaction establishes -/
 structure PagesPost (cfg : Cfg) (T : List Tx) (fs : FS) (m : Mem) (covered : List Nat) : Prop where
   nofail : failOf (pagesA cfg m fs.pv).1 = none
+  plain : Plain (pagesA cfg m fs.pv).1
   pager : PagerActs (pagesA cfg m fs.pv).1
   setpm : OnlySetPm (memUpds (pagesA cfg m fs.pv).1)
   lastpm : lastPm (memUpds (pagesA cfg m fs.pv).1) m.pm = (pagesA cfg m fs.pv).2.1.pm
@@ -443,7 +444,7 @@ theorem pages_post {cfg : Cfg} {T : List Tx} {fs : FS} {m : Mem} {cs : List CTx}
     · rw [htrees, List.append_assoc, List.append_assoc, applyEffs_append, ← hp1, List.nil_append, applyEffs_append]
       rfl
     · rw [hp1]; exact trees_segParts _ _ _ _ _
-  refine { nofail := hall.nofail, pager := hall.pager, setpm := hall.setpm, lastpm := hall.lastpm, lastbm := hall.lastbm,
+  refine { nofail := hall.nofail, plain := hall.plain, pager := hall.pager, setpm := hall.setpm, lastpm := hall.lastpm, lastbm := hall.lastbm,
            safe := hall.safe fs hinit, pj := hpjF, hdr := hhdrF, pbm := hbmF, cg := ?_, k0 := by rw [hkey]; exact hk0, seg := ?_, same := ?_, tree := ?_ }
   · rw [hpdF]
     have := allImgsL_pd _ _ _ (hall.post fs hinit)
